@@ -181,6 +181,10 @@ def r5_scalar_tables(chk: Check) -> None:
             chk.decide(True if f"ip_addresses(v={fam})" in forms else (False if "ip_addresses(" in forms else None), "C20.R5", fn, f"`{name}` generates IPv{fam} addresses", f"the address family is not v={fam}: `{name}` arguments get addresses of the other family (or both)", fn.loc(v))
         if name == "Long":
             chk.decide(True if ("min_value=-2 ** 63" in forms and "max_value=2 ** 63 - 1" in forms) else (False if "integers()" in forms else None), "C20.R5", fn, "`Long` stays within a signed 64-bit integer", "unbounded integers for `Long`", fn.loc(v))
+    # dates: `str(date)` / `isoformat()` zero-pad the year; `strftime("%Y")` does not on glibc (year 383 -> "383-03-17"),
+    # which is not a valid full-date literal
+    for c in [x for x in ast.walk(fn.node) if isinstance(x, ast.Call) and last_attr(x) == "strftime" and x.args and "%Y" in (const_str(x.args[0]) or "")]:
+        chk.violation("C20.R5", fn, "date literals are ISO 8601 full-dates for every year", f"`{unparse(c, 60)}`: `%Y` is not zero-padded for years below 1000 on glibc - `Date` / `DateTime` arguments like `\"383-03-17\"` are not acceptable values of the scalar (about one draw in ten)", fn.loc(c))
     reg = P.func("specs/graphql/scalars.py:scalar")
     stores = [a for a in walk_body(reg.node) if isinstance(a, ast.Assign) and any(isinstance(t, ast.Subscript) and unparse(t.value) == "CUSTOM_SCALARS" for t in a.targets)]
     ps = params_of(reg.node)
